@@ -28,7 +28,7 @@ type LimitCfg struct {
 	RTTTol        float64 `json:"rtt_tol,omitempty"`
 	Queue         string  `json:"queue,omitempty"` // "" (library default) | fixed:k | sqrt:k | log10:k
 	LongWindow    int     `json:"long_window,omitempty"`
-	NoLoad        string  `json:"no_load,omitempty"` // vegas: caller-supplied baseline measurement: "" (default minimum) | single | expavg
+	NoLoad        string  `json:"no_load,omitempty"` // vegas: caller-supplied baseline measurement: "" (default minimum) | minimum (a caller-supplied minimum) | single | expavg
 	// vegas: caller-supplied policy functions (documented constructor options); "" = library default.
 	// int ones (alpha, beta, threshold): "k:N" constant N | "log:M" M*log10-root(limit).
 	// float ones (increase, decrease): half | dbl | sub:K | add:K | zero | same.
@@ -322,6 +322,8 @@ func tryBuildLimit(c LimitCfg, reg core.MetricRegistry) (built, error) {
 			noLoad = &measurements.SingleMeasurement{}
 		case "expavg":
 			noLoad = measurements.NewExponentialAverageMeasurement(20, 3)
+		case "minimum":
+			noLoad = &measurements.MinimumMeasurement{} // the caller's own instance of what the library would have built itself
 		}
 		inner = limit.NewVegasLimitWithRegistry("t", c.arg("initial", c.Initial), noLoad, c.arg("max", c.Max), c.argF("smoothing", c.Smoothing), vegasIntFn(c.VAlpha), vegasIntFn(c.VBeta), vegasIntFn(c.VThr), vegasFloatFn(c.VInc), vegasFloatFn(c.VDec), c.ProbeMult, logger, reg)
 	case "gradient":
